@@ -273,6 +273,13 @@ class Runner:
             c.restart(w[1])
             self.obs[w[1]] = Obs()
             self.wire_seen[w[1]] = 0
+        elif k == 'same':
+            # same <i> <j>: at this point of the schedule the two instances hold the same runs at the same positions
+            a, b = self.c.insts[w[1]], self.c.insts[w[2]]
+            if a.alive and b.alive and a.positions() != b.positions():
+                diff = sorted(set(a.positions().items()) ^ set(b.positions().items()))[:3]
+                self.fail('not-converged', f"after minutes of healthy links and nothing left to send, {w[1]} and {w[2]} hold different "
+                                           f"runs/positions: {diff}")
         elif k == 'sync':
             self.sync()
         elif k == 'heal':
